@@ -21,7 +21,11 @@ def gen_case(rng):
     num = {t: i + 1 for i, t in enumerate(names)}
     builds = [t for t in names if T[t]['kind'] == 'build']
     fail = rng.sample(builds, min(len(builds), rng.choice([0, 0, 0, 1, 1, 2])))
-    targets = ';'.join('%d:%s:%s' % (num[t], KIND[T[t]['kind']], '.'.join(str(num[d]) for d in T[t]['deps']) or '-') for t in names)
+    # some builds take a few milliseconds: later requesters then register after completion, acknowledgements cross requests
+    slow = rng.random() < 0.6
+    targets = ';'.join('%d:%s:%s%s' % (num[t], KIND[T[t]['kind']], '.'.join(str(num[d]) for d in T[t]['deps']) or '-',
+                                       (':%d' % rng.choice([0, 0, 3, 10, 25])) if (slow and T[t]['kind'] == 'build') else '')
+                       for t in names)
     return {'family': fam, 'roots': ','.join(str(num[r]) for r in roots), 'targets': targets,
             'failing': ','.join(str(num[t]) for t in fail) or '-'}
 
